@@ -367,6 +367,8 @@ fn message_loop(comms: &mut Comms) -> Result<(), ()> {
 /// and this function still returns Ok(). Error() variants returned from this function indicate a more catastrophic
 /// error, like a communication failure.
 fn exec_command(command: Command, comms: &mut Comms, context: &mut Option<DoerContext>) -> Result<bool, String> {
+    #[cfg(rjrssync_verif)]
+    if let Some(e) = verif_hooks::inject(&command) { comms.send_response(Response::Error(e))?; return Ok(true); }
     match command {
         Command::SetRoot { root } => {
             if let Err(e) = handle_set_root(comms, context, root) {
